@@ -75,6 +75,7 @@ class Built:
         self.copied = []      # (kind, name, file, line) of verbatim-copied items
         self.assumed = []     # external_body contracts etc. (also mechanically scanned)
         self.dropped = []     # text dropped from the verified program
+        self.skipped_clauses = []   # labels of in-body assertions whose anchor was not found: those clauses are NOT checked in this run
 
 
 def gen_clone_impls(type_names):
@@ -352,7 +353,7 @@ def run_unit(u, tier):
           "discharged": int(vr.get("verified", 0)),
           "solver_s": round((smt.get("smt-run") or 0) / 1000.0, 3), "wall_s": round(secs, 2),
           "named_clauses": sorted(set(label_map(built.text).values())),
-          "edits": built.edits, "copied": built.copied, "dropped": built.dropped,
+          "edits": built.edits, "copied": built.copied, "dropped": built.dropped, "skipped_clauses": built.skipped_clauses,
           "fn_times": fn_times, "generated_file": path}
     if vr.get("encountered-vir-error") or (hard and not failures) or (vr.get("encountered-error") and not failures):
         ur["status"] = "undecided"
